@@ -390,7 +390,7 @@ func run(r *eng.Runner) {
 		}
 	}
 	a16 := []string{"<", ">", "&", "\"", "'", "\\", "/", " ", "a", "b", "n", ";", "#", "\n", "\xc3\xa9", "\xff"}
-	a8 := []string{"<", ">", "/", "a", "b", " ", "&", "\\"}
+	a8 := []string{"<", ">", "/", "a", "b", " ", "&", "\\", ","}
 	aEnt := []string{"&", "amp;", "#39;", "lt;", "<", "'", ";", "r", "\\", "�"}
 	n16, n8, nEnt := 3, 5, 4
 	if !r.Quick() {
